@@ -181,9 +181,27 @@ def shapes_childless():
         yield ("MB", [("VM", [("AC", [(x, [])])])])
 
 
+def shapes_deep():
+    """Chains: every object must still be there at any depth the document is accepted with (widgets only,
+    widget/layout alternating, with a sibling at the bottom)."""
+    for depth in (6, 12, 24, 31, 32, 33, 34, 40, 48, 64):
+        for pattern in (("W",), ("W", "VB"), ("GB", "GR"), ("W", "W", "HB")):
+            shape = ("LB", [])
+            for lvl in range(depth - 1, -1, -1):
+                code = pattern[lvl % len(pattern)]
+                kids = [shape] + ([("LB", [])] if lvl == depth - 1 else [])
+                if KINDS[code][1] == "layout" and lvl == 0:
+                    code = "W"
+                shape = (code, kids)
+            if KINDS[shape[0]][1] == "layout":
+                shape = ("W", [shape])
+            yield shape
+
+
 def all_shapes(tier):
     yield from shapes_depth2(FULL, 3)
     yield from shapes_childless()
+    yield from shapes_deep()
     # menu bars and tool bars with menu-like children (plain and derived)
     for parent in ("MB", "MN", "VM", "TW", "VT"):
         for kids in itertools.product(["MN", "VM", "AC", "VA", "SEP", "W"], repeat=2):
